@@ -19,10 +19,11 @@ BASE = """/VERSION 10
 /ENCODING {enc}
 r8 RAW UINT8 2
 r16 RAW INT16 1
-f64 RAW FLOAT64 1
+f64 RAW FLOAT64 4
 c64 RAW COMPLEX64 1
 lin LINCOM 2 r8 1.5 0 r16 2 1
 lin1 LINCOM 1 r8 2 k
+lin3 LINCOM 3 r8 1 0 r16 2 1 f64 1 0
 lt LINTERP r8 table.lut
 bt BIT r16 3 4
 sb SBIT r16 1 5
@@ -270,6 +271,17 @@ def make_cases(ctx, n):
             cb = "none"
         args = [cb, rng.choice(["close", "discard"])] + rng.choice([[], [], ["pedantic"], ["permissive"], ["ignore_dups"], ["ignore_refs"], ["big"]])
         cases.append((files, args, meta))
+    # SIE files whose record indices are every triple of extreme values (a defect found this way: an index that does
+    # not increase made _GD_SampIndRead return a count larger than asked for -> memcpy of 2^63 bytes)
+    import itertools
+    ext = [-2 ** 63, -2 ** 63 + 1, -1, 0, 1, 5, 2 ** 63 - 2, 2 ** 63 - 1]
+    triples = list(itertools.product(ext, repeat=3))
+    if not ctx.thorough():
+        keep = [(0, -2 ** 63 + 1, 5), (0, -2 ** 63 + 1, 2 ** 63 - 2)]
+        triples = keep + rng.sample(triples, 96)
+    for t in triples:
+        data = b"".join(struct.pack("<q", i) + bytes([7 + k]) for k, i in enumerate(t))
+        cases.append(({"format": b"/VERSION 10\n/ENCODING sie\nr RAW UINT8 1\np PHASE r 1\n", "r.sie": data}, ["none", "close"], {"class": "sie-indices", "enc": "sie"}))
     return cases
 
 
